@@ -1,6 +1,6 @@
 """C11 - `list` returns exactly the recorded messages that match, with honest counts."""
 import re
-from .. import env, histgen, session, wire, scripts, refmatch as rm
+from .. import env, histgen, model, session, wire, scripts, refmatch as rm
 from ..runner import Prop, Stage, Result
 from .c06 import PROFILE
 
@@ -214,15 +214,53 @@ class Listings(Stage):
         return res
 
 
+class LongListings(Stage):
+    """listings over sessions of thousands of messages (expanded from a drawn template): caps around 1000, labels deep into the
+    incarnation letters, listings in the middle of the stream and at the end"""
+    name = 'long-listings'
+
+    def examples(self, tier):
+        return 8 if tier == 'quick' else 14 * 10
+
+    def gen(self, d, tier):
+        t = histgen.gen_long_template(d)
+        t['cycles'] = d.choice([d.int(260, 400), d.int(703, 760), d.int(1000, 1300)])
+        x = t['lanes'][0]['id']
+        deep = model.letters(d.int(0, t['cycles'] - 1))
+        cmds = []
+        for _ in range(d.int(3, 6)):
+            mt = d.choice(['', '', '.delete_id', 'wl_display', '%d%s' % (x, deep), '%d' % x, '.sync, .create_region, .create_surface', '* ! .delete_id', 'wl_callback, wl_region, wl_surface',
+                           '(%d)' % x, '.destroy'])
+            cap = d.choice(['', '', ' ~ 1', ' ~ 2', ' ~ 999', ' ~ 1000', ' ~ 1001', ' ~ 2048', ' ~ 5000', ' ~ %d' % d.int(1, 6000)])
+            cmds.append('list ' + mt + cap)
+        return dict(template=t, cmds=cmds, mid=d.int(0, 100), prompt=d.chance(0.5))
+
+    def execute(self, case):
+        res = Result()
+        res.evals = 0
+        specs = histgen.expand_long(case['template'])
+        lines = [['line', wire.render(m, 'new'), m['conn']] for m in specs]
+        k = len(lines) * case['mid'] // 100
+        items = lines[:k] + [['cmd', case['cmds'][0]]] + lines[k:] + [['cmd', c] for c in case['cmds'][1:]]
+        w, binding, partial = evaluate(dict(dialect='new', specs=specs, initial_filter=None, items=items, prompt=case.get('prompt', False)), res)
+        res.nontrivial = binding and partial
+        if binding: res.label('binding-cap')
+        if partial: res.label('non-empty-partial-listing')
+        res.label('messages>=%d000' % (len(specs) // 1000) if len(specs) >= 1000 else 'messages<1000')
+        res.count('listings', w.changes['listings'])
+        res.sample = dict(commands=case['cmds'], messages=len(specs))
+        return res
+
+
 class C11(Prop):
     id = 'C11'
     rule = ('scripted sessions (as C06) with list-heavy command weights: `list [matcher] [~ N]` with N absent, 0, 1, 2, 3, 5, 50, 100, a non-number; '
             'every listing is compared with the recorded messages of the selection filtered by an independently parsed matcher (or the current '
             'filter), last N for caps >= 1, matched+didn\'t+not checked = recorded, matched = lines shown, None-of-K form, and the '
             'filter/breakpoint/selection/record sampled before and after. non-trivial = session with a non-empty listing smaller than the '
-            'record and a binding cap; distinct by SHA-1 of the case.')
+            'record and a binding cap; distinct by SHA-1 of the case. long-listings: the same comparisons over sessions of 800..12 000 messages expanded from a drawn template, caps around 1000 and up to 6000, labels deep into the incarnation letters, one listing mid-stream.')
     assumptions = ['matcher meaning is C05\'s business', 'cap 0 and negative caps are outside the statement (only sanity-checked)']
-    stages = [Listings()]
+    stages = [Listings(), LongListings()]
 
 
 PROP = C11()
